@@ -173,11 +173,19 @@ where
         let stream = self.stream.take().expect("missing stream");
         let mut blocks = stream.into_inner();
 
-        blocks.seek(pos).await?;
-
+        // The stream is put back even when the seek fails: the reader must not be left without
+        // one.
+        let result = blocks.seek(pos).await;
         let mut stream = blocks.try_buffered(self.worker_count.get());
 
-        self.block = match stream.try_next().await? {
+        let result = match result {
+            Ok(_) => stream.try_next().await,
+            Err(e) => Err(e),
+        };
+
+        self.stream.replace(stream);
+
+        self.block = match result? {
             Some(mut block) => {
                 let (cpos, upos) = pos.into();
 
@@ -194,8 +202,6 @@ where
                 block
             }
         };
-
-        self.stream.replace(stream);
 
         Ok(pos)
     }
@@ -216,7 +222,14 @@ where
                 SeekState::Seek(mut blocks) => {
                     match Pin::new(&mut blocks).poll_seek(cx, pos) {
                         Poll::Ready(Ok(_)) => {}
-                        Poll::Ready(Err(e)) => return Poll::Ready(Err(e)),
+                        Poll::Ready(Err(e)) => {
+                            // A failed seek must not leave the reader without a stream or a seek
+                            // state.
+                            let stream = blocks.try_buffered(self.worker_count.get());
+                            self.stream.replace(stream);
+                            self.seek_state = Some(SeekState::Done);
+                            return Poll::Ready(Err(e));
+                        }
                         Poll::Pending => {
                             self.seek_state = Some(SeekState::Seek(blocks));
                             return Poll::Pending;
@@ -234,6 +247,13 @@ where
                             return Poll::Pending;
                         }
                     };
+
+                    self.stream.replace(stream);
+
+                    // The seek is complete, whether or not it succeeded. The next call starts a
+                    // new one, even to the same position: the stream has moved on in the
+                    // meantime.
+                    self.seek_state = Some(SeekState::Done);
 
                     self.block = match item {
                         Some(Ok(mut block)) => {
@@ -253,12 +273,6 @@ where
                             block
                         }
                     };
-
-                    self.stream.replace(stream);
-
-                    // The seek is complete. The next call starts a new one, even to the same
-                    // position: the stream has moved on in the meantime.
-                    self.seek_state = Some(SeekState::Done);
 
                     return Poll::Ready(Ok(pos));
                 }
